@@ -1,5 +1,6 @@
 /-
-  C03 — Signing never corrupts or alters the payload.   PowerShell part (model `Relic.Model.PS`).
+  C03 — Signing never corrupts or alters the payload.   PowerShell part (model `Relic.Model.PS`, code after fixes F8 and
+  F-ps-eol; whether `TextSize` itself is right in front of an existing block: C03_PSEol.lean).
 -/
 import Relic.Proofs.PS
 import Relic.Props.C08_PS
